@@ -784,10 +784,12 @@ fn common_prefix(a: &[u8], b: &[u8]) -> usize {
 }
 
 pub fn c09(ctx: &Ctx) {
-    ctx.set_rule("U_small ∪ U_size(<= 16384) under all sink schedules (all compositions of the output for <= 10 bytes with and without Pending at every boundary; else every cut set of <= 2 (thorough 3) cuts from the boundary positions), U_val ∪ U_field ∪ U_thresh under the always-ready sink; encode() twice, VarBytes contents, control byte ++ reference varint(body.encode_len()) ++ streamed body, body streamed into 1-byte sinks and sinks that answer Interrupted / a short write at call i; non-trivial = values with optional content");
+    ctx.set_rule("U_small ∪ U_size(<= 16384) ∪ U_thresh(encodings <= 4300 bytes) under all sink schedules (all compositions of the output for <= 10 bytes with and without Pending at every boundary; else every cut set of <= 2 (thorough 3) cuts from the boundary positions), U_val ∪ U_field ∪ U_thresh under the always-ready sink; encode() twice, VarBytes contents, control byte ++ reference varint(body.encode_len()) ++ streamed body, body streamed into 1-byte sinks and sinks that answer Interrupted / a short write at call i; non-trivial = values with optional content");
     fn fam<F: Fam>(ctx: &Ctx) {
         let mut small = u_small(F::FAMILY);
         small.extend(gen::u_size(F::FAMILY, &[0, 1, 127, 128], &[127, 128, 16383, 16384]));
+        // size thresholds x flags under sink schedules too (bulk fields up to 4097 bytes)
+        small.extend(mqtt_ref::genfield::u_thresh(F::FAMILY).into_iter().filter(|a| enc::encode_bytes(F::FAMILY, a).map(|b| b.len() <= 4300).unwrap_or(false)));
         ctx.count(&format!("{}_full_schedule_values", F::NAME), small.len() as u64);
         small.par_iter().for_each(|a| c09_item::<F>(ctx, a, true));
         let (u, _) = universe(F::FAMILY, ctx);
